@@ -59,10 +59,23 @@ class NewTypeTypeHint(ClassTypeHint):
             # cached; the "_TypeHintMetaclass" metaclass guarantees this
             # __init__() method to be called exactly once for each "NewType"
             # type hint.
-            self._origin = make_type(
-                type_name=hint_name,
-                type_bases=(hint_embedded,),  # type: ignore[arg-type]
-            )
+            #
+            # Note that *NOT* all classes are subclassable. Notably, neither
+            # C-based final classes (e.g., "bool", "NoneType", "range") *NOR*
+            # enumerations defining one or more members are. Since new types
+            # are runtime no-ops that are trivially creatable over these
+            # classes (e.g., "NewType('Flag', bool)"), attempting to subclass
+            # these classes raises non-human-readable low-level exceptions
+            # (e.g., "TypeError: type 'bool' is not an acceptable base type").
+            # In that case, fallback to treating this new type as an alias of
+            # this class -- exactly as runtime type-checking of new types does.
+            try:
+                self._origin = make_type(
+                    type_name=hint_name,
+                    type_bases=(hint_embedded,),  # type: ignore[arg-type]
+                )
+            except Exception:
+                self._origin = hint_embedded
         # Else, this non-new type hint is a non-class (e.g., "Any"). In this
         # case, preserve this non-class as is.
         else:
